@@ -179,7 +179,13 @@ class FileProxy:
 
     # -- intercepted ---------------------------------------------------------
     def write(self, data):
-        emit('write', self._p, {'n': len(data), 'mode': self._m})
+        pos = None
+        if 'a' not in self._m:  # in append mode the kernel writes at EOF whatever the position
+            try:
+                pos = self._f.tell()
+            except (OSError, ValueError):
+                pos = None
+        emit('write', self._p, {'n': len(data), 'mode': self._m, 'pos': pos})
         return self._f.write(data)
 
     def writelines(self, lines):
